@@ -89,7 +89,7 @@ async fn drive(w: W, sc: &Scenario) {
         Method::Clean => RecyclingMethod::Clean,
         Method::Custom(s) => RecyclingMethod::Custom(s.clone()),
     };
-    let mgr = Manager::from_connect(cfg, SimConnect { w: w.clone() }, ManagerConfig { recycling_method });
+    let mgr = Manager::from_connect(cfg, SimConnect { w: w.clone(), linger: sc.lingering_conn_task }, ManagerConfig { recycling_method });
     let pool = Pool::builder(mgr)
         .max_size(sc.max_size as usize)
         .runtime(Runtime::Tokio1)
